@@ -276,6 +276,7 @@ COMBINATORS = {
     "core::result::Result::is_ok_and": ("core::result::Result", "Ok", "Err", "pred"),
     "core::option::Option::and_then": ("core::option::Option", "Some", "None", "and_then"),
     "core::option::Option::map": ("core::option::Option", "Some", "None", "map"),
+    "core::option::Option::filter": ("core::option::Option", "Some", "None", "filter"),
 }
 
 
@@ -353,6 +354,40 @@ def desugar_combinators(f, fns, rounds=3):
         L.append({"ty": "isize", "adt": None})
         v_loc = len(L)
         L.append(copy.deepcopy(clo["body"]["locals"][2]))
+        if kind == "filter":
+            # `o.filter(|v| p(v))` = match o { Some(v) => if p(&v) { Some(v) } else { None }, None => None }
+            pty = L[v_loc]["ty"]
+            if not pty.startswith("&") or pty.startswith("&mut"):
+                L.pop(); L.pop()
+                break
+            import re as _re
+            L[v_loc] = dict(L[v_loc], ty=_re.sub(r"^&('[a-z_]+ )?", "", pty))
+            ref_loc = len(L)
+            L.append(copy.deepcopy(clo["body"]["locals"][2]))
+            r_loc = len(L)
+            L.append({"ty": "bool", "adt": None})
+            dest, target = t["dest"], t["target"]
+            pdisc, odisc = ENUM_DISCR[(adt, pv)], ENUM_DISCR[(adt, ov)]
+            nb = len(B)
+            b_other, b_some, b_unreach, b_test, b_wrap = nb, nb + 1, nb + 2, nb + 3, nb + 4
+            B.append({"cleanup": False, "stmts": [{"k": "assign", "place": copy.deepcopy(dest), "rv": {"agg": "adt", "adt": adt, "variant": ov, "fields": [], "ops": []}, "s": s_}],
+                      "term": {"k": "goto", "target": target, "s": s_}})
+            proj = [{"downcast": pv, "vi": pdisc}, {"f": 0, "n": "0", "adt": adt, "v": pv}]
+            some_stmts = [{"k": "assign", "place": {"l": v_loc, "p": []}, "rv": {"use": {"move": {"l": x["l"], "p": proj}}}, "s": s_},
+                          {"k": "assign", "place": {"l": ref_loc, "p": []}, "rv": {"ref": {"l": v_loc, "p": []}, "mut": False}, "s": s_}]
+            cterm = {"k": "call", "func": {"const": {"ty": "closure", "fn": {"path": cdef[c["l"]], "local": True, "orig": cdef[c["l"]]}}},
+                     "args": [{"move": {"l": c["l"], "p": []}}, {"move": {"l": ref_loc, "p": []}}], "dest": {"l": r_loc, "p": []}, "target": b_test, "unwind": t.get("unwind"), "s": s_}
+            B.append({"cleanup": False, "stmts": some_stmts, "term": cterm})
+            B.append({"cleanup": False, "stmts": [], "term": {"k": "unreachable", "s": s_}})
+            B.append({"cleanup": False, "stmts": [], "term": {"k": "switch", "op": {"move": {"l": r_loc, "p": []}}, "ty": "bool", "targets": [[0, b_other]], "otherwise": b_wrap, "s": s_}})
+            B.append({"cleanup": False, "stmts": [{"k": "assign", "place": copy.deepcopy(dest), "rv": {"agg": "adt", "adt": adt, "variant": pv, "fields": ["0"], "ops": [{"move": {"l": v_loc, "p": []}}]}, "s": s_}],
+                      "term": {"k": "goto", "target": target, "s": s_}})
+            B[bi]["stmts"].append({"k": "assign", "place": {"l": d_loc, "p": []}, "rv": {"discr": {"l": x["l"], "p": []}, "adt": adt}, "s": s_})
+            B[bi]["term"] = {"k": "switch", "op": {"move": {"l": d_loc, "p": []}}, "ty": "isize", "targets": [[odisc, b_other], [pdisc, b_some]], "otherwise": b_unreach, "s": s_}
+            _splice(f, b_some, clo)
+            SPLICED_CLOSURES.add(cdef[c["l"]])
+            done += 1
+            continue
         dest, target = t["dest"], t["target"]
         pdisc, odisc = ENUM_DISCR[(adt, pv)], ENUM_DISCR[(adt, ov)]
         nb = len(B)
@@ -626,12 +661,18 @@ def fn_renames(js):
     m = {}
     for s in new:
         f = fns[cur_short[s]]
-        if f.get("vis") == "Public" or f.get("impl_trait"):
+        if f.get("impl_trait"):
             continue
         sig = _sig(f)
         par = s.rsplit("::", 1)[0]
         cands = [o for o, v in vanished.items() if o.rsplit("::", 1)[0] == par and v[0] == sig[0] and v[1] == sig[1] and tuple(v[2]) == sig[2]]
         ft = _features(f)
+        if f.get("vis") == "Public":
+            # a `pub` function (of a type the crate need not export) counts as renamed only with an unchanged body summary
+            cands = [o for o in cands if len(vanished[o]) > 3 and vanished[o][3] == ft]
+            if len(cands) == 1:
+                m[s] = cands[0]
+            continue
         if len(cands) > 1:
             cands = [o for o in cands if len(vanished[o]) > 3 and vanished[o][3] == ft]
         elif len(cands) == 1 and len(vanished[cands[0]]) > 3:
